@@ -80,7 +80,8 @@ def group(case):
     np = L["np"]
     solver, backend, dt, t0, td = case["solver"], case["backend"], case["dt"], case["t0"], case["td"]
     only = case.get("only")  # replay of a single (range, tracker set)
-    eq = L["Lin"](-0.5, poly=(0.3, -0.2, 0.1) if td else None)
+    hook = bool(case.get("hook"))
+    eq = L["Lin"](-0.5, poly=(0.3, -0.2, 0.1) if td else None, hook=hook)
     grid = L["UnitGrid"]([2])
     s0 = L["ScalarField"](grid, [1.0, 2.0])
     s0_bytes = s0._data_full.tobytes()
@@ -94,7 +95,7 @@ def group(case):
         c["only"] = [mult, tset]
         viol.append(
             {
-                "sig": f"{solver}|{backend}|{'time-dependent' if td else 'autonomous'}|{clause}",
+                "sig": f"{solver}|{backend}|{'time-dependent' if td else 'autonomous'}{'+post-step hook' if hook else ''}|{clause}",
                 "msg": f"{clause}: dt={dt} t0={t0} range={mult}*dt trackers={tset} {detail}",
                 "detail": detail,
                 "case": c,
@@ -122,6 +123,9 @@ def group(case):
             steps = info["solver"]["steps"]
             tf = info["controller"]["t_final"]
             calls = 1 + sum(len(t.ts) for t in trackers)
+            if hook and info["solver"].get("post_step_data") != float(steps):
+                bad("post-step hook data is not carried through the run", mult, tset,
+                    post_step_data=info["solver"].get("post_step_data"), steps=steps)
             ttol = 1e-9 * dt + 4 * (calls + 1) * ulp(max(abs(t0), abs(t1)))
             # caller's state untouched, result not aliased
             if s0._data_full.tobytes() != s0_bytes:
@@ -190,7 +194,7 @@ def group(case):
             # non-trivial: the tracker-free reference runs and runs in which a tracker interrupted the
             # simulation at least once after the start
             if not tset or any(len(tr.ts) >= 2 for tr in trackers):
-                keys.append(f"{solver}|{backend}|{dt}|{t0}|{td}|{mult}|{tset}")
+                keys.append(f"{solver}|{backend}|{dt}|{t0}|{td}|{hook}|{mult}|{tset}")
             if len(viol) > 20:
                 break
         if len(viol) > 20:
@@ -211,6 +215,11 @@ def main(run):
                         cases.append(
                             {"solver": solver, "backend": backend, "dt": dt, "t0": t0, "td": td, "tier": tier}
                         )
+                        # an equation with a stateful post-step hook (scalar hook data fed back into the state)
+                        if not td and (tier == "thorough" or (dt in (0.1, 1 / 3, 0.5) and t0 in (0.0, -2.0))):
+                            cases.append(
+                                {"solver": solver, "backend": backend, "dt": dt, "t0": t0, "td": False, "hook": True, "tier": tier}
+                            )
     run.explore("checks.c07:group", cases, mode="I", part="controller-runs", chunksize=1, limit=1200)
     # mode J: the compiled steppers (one compile per group) through a reduced range/tracker alphabet
     jcases = []
@@ -223,6 +232,7 @@ def main(run):
                 jcases.append(
                     {"solver": solver, "backend": "numba", "dt": dt, "t0": -2.0 if td else 0.0, "td": td, "tier": "J"}
                 )
+        jcases.append({"solver": solver, "backend": "numba", "dt": 0.1, "t0": 0.0, "td": False, "hook": True, "tier": "J"})
     run.explore("checks.c07:group_jit", jcases, mode="J", part="controller-runs-jit", chunksize=1, limit=2400)
     run.notes["tracker_sets"] = len(tracker_sets(tier))
     run.notes["ranges"] = len(ranges(tier))
